@@ -167,6 +167,20 @@ claim(
     "Schedules on the real runtime are sampled, not enumerated; GIL atomicity and llvmlite/LLVM/cffi thread safety are assumptions of the model.",
 )
 
+claim(
+    "C12",
+    "Full at the model level. Theorems: `parse_deparse` (every valid, well-spelled assignment tree prints to text that parses back to "
+    "exactly that tree), `parseExpr_sound`/`parseExpr_complete`/`derives_unique` (the parser builds exactly the trees of the textbook "
+    "grammar E -> E+T | E-T | T, T -> T*F | F, F -> tensor | number | (E): * binds tighter, equal precedence associates left, "
+    "parentheses override), `validate_none_iff` (rejected exactly when the target recurs, a tensor has two orders, or a name is both "
+    "tensor and index), `format_roundtrip`, `parseFormat_ok_perm`; parsing is a total function by construction. The Lean lexer/parser/"
+    "printer are compared with parse_assignment / deparse / parse_format / parse_named_format on grammar sentences, mutations, raw text "
+    "(tabs, newlines, non-ASCII digits), a name-collision validation stream and all short format strings.",
+    "Lean 4 round-trip + grammar soundness/completeness proofs on the ported lexer/parser/printer + exact correspondence with the parsita parser",
+    "DESIGN.md section 6 C12",
+    "int()/float()/str() of CPython convert literal lexemes (the model keeps lexemes); parsita's PEG semantics are modelled (lexer + recursive descent), tied by the correspondence.",
+)
+
 ALL = [f"C{n:02d}" for n in range(1, 17)]
 for p in ALL:
     if p not in CHECKS:
